@@ -168,10 +168,15 @@ func main() {
 	flag.StringVar(&driverPath, "driver", "", "path of the compiled Lean driver")
 	outp := flag.String("out", "", "result file")
 	replay := flag.String("replay", "", "replay file")
+	measureMode := flag.Bool("measure", false, "child mode: run the one call given on stdin and print what it allocated")
 	execMode := flag.Bool("exec", false, "child mode: execute the calls given on stdin and print their results")
 	flag.Parse()
 	if *execMode {
 		execChild()
+		return
+	}
+	if *measureMode {
+		measureChild()
 		return
 	}
 	rng = rand.New(rand.NewSource(seed*7919 + int64(len(*prop))))
